@@ -155,6 +155,23 @@ pub fn run(rng: &mut R, out: &mut Out) {
             out.s("block_hash_eq_header_hash", bk.block_hash() == bk.header.block_hash(), || hex(&v));
         }
     }
+    // edge cases first: dynafed headers with null/null, null/compact, compact/null parameters, legacy with empty scripts
+    {
+        use elements::dynafed::Params;
+        let mk = |c: Params, p: Params, rng: &mut R| { let mut h = gen::header(rng); h.ext = BlockExtData::Dynafed { current: c, proposed: p, signblock_witness: vec![] }; h };
+        let compact = loop { let p = gen::params(rng); if p.is_compact() { break p; } };
+        let full = loop { let p = gen::params(rng); if p.is_full() { break p; } };
+        for (c, p) in [(Params::Null, Params::Null), (Params::Null, compact.clone()), (compact.clone(), Params::Null), (full.clone(), Params::Null), (Params::Null, full.clone())] {
+            let h = mk(c, p, rng);
+            one_header(out, rng, &h);
+        }
+        let mut h = gen::header(rng);
+        h.ext = BlockExtData::Proof { challenge: vec![].into(), solution: vec![].into() };
+        one_header(out, rng, &h);
+        let mut h = gen::header(rng);
+        h.ext = BlockExtData::default();
+        one_header(out, rng, &h);
+    }
     for _ in 0..150 * scale {
         let h = gen::header(rng);
         one_header(out, rng, &h);
